@@ -107,7 +107,9 @@ def region_env(a, sl):
 
 def describe(template, args):
     a = [int(x) for x in args]
-    def s64(v): return v - (1 << 64) if v >> 63 else v
+    def s64(v):
+        v &= (1 << 64) - 1
+        return v - (1 << 64) if v >> 63 else v
     f = a[4:12]
     attrs = []
     if a[1]: attrs.append('address(%d)' % s64(a[2]))
